@@ -71,6 +71,7 @@ type agent struct {
 	tasks   map[string]*taskRec
 	sendErr int // fail that many UPDATE sends
 	nSubs   int
+	latency time.Duration
 }
 
 type subscription struct {
@@ -107,6 +108,9 @@ func (a *agent) push(e mexec.Event) { a.events <- e }
 func (a *agent) Send(ctx context.Context, r calls.Request) (mesos.Response, error) {
 	call := r.Call()
 	simrt.Yield()
+	if a.latency > 0 {
+		simrt.Sleep(a.latency) // the HTTP round trip to the agent: the event loop is busy meanwhile
+	}
 	now := a.c.S.Now()
 	switch call.Type {
 	case mexec.Call_UPDATE:
@@ -606,7 +610,7 @@ func (h *world) target(t *taskRec) controlcommands.MesosCommandTarget {
 func (h *world) awaitResponse(t *taskRec, n int, limit time.Duration) bool {
 	deadline := h.c.S.Now() + limit
 	for len(t.responses) < n && h.c.S.Now() < deadline {
-		simrt.Sleep(100 * time.Millisecond)
+		simrt.Sleep(50 * time.Millisecond)
 	}
 	return len(t.responses) >= n
 }
@@ -671,9 +675,10 @@ func (h *world) script(t *taskRec) {
 // the run
 
 type scenario struct {
-	Tasks       []*taskSpec `json:"tasks"`
-	UpdateFails int         `json:"update_send_failures"`
-	FaultDen    int         `json:"fault_one_in"`
+	Tasks       []*taskSpec   `json:"tasks"`
+	UpdateFails int           `json:"update_send_failures"`
+	SendLatency time.Duration `json:"agent_call_latency"`
+	FaultDen    int           `json:"fault_one_in"`
 }
 
 func isTerminal(s mesos.TaskState) bool {
@@ -768,6 +773,8 @@ func body(c *hk.Ctx) {
 		sc.UpdateFails = 1 + c.F(2, "how-many")
 		h.ag.sendErr = sc.UpdateFails
 	}
+	sc.SendLatency = []time.Duration{0, 2 * time.Millisecond, 150 * time.Millisecond}[c.W(3, "agent-latency")]
+	h.ag.latency = sc.SendLatency
 	c.Scenario = sc
 	h.sc = sc
 	c.NonTrivial = true
